@@ -585,7 +585,7 @@ theorem counterexample_cursor_left_open :
     exact ⟨out, by rw [h]; rfl⟩
   refine ⟨?_, ?_, hfresh none, ?_⟩
   · exact stepReadL_refused_locks (0 : Int) lut frames 5 4 2 3 false true q1 none 1 6 1 5 6 rfl (by decide) (by decide) (by decide)
-      (by decide) rfl (by decide) ⟨1, 1, 0, 1⟩ (by simp [lut]) (by decide) (1, 1) (by simp [q1]) rfl
+      (by decide) rfl ⟨1, 1, 0, 1⟩ (by simp [lut]) (by decide) (1, 1) (by simp [q1]) rfl
   · exact stepReadL_locked_refuses (0 : Int) lut frames 5 4 2 3 false true false true q2 _ 1 6 1 5 6 rfl (by decide) (by decide) (by decide)
   · rw [stepReadL_closed, stepReadL_closed]
     exact hfresh _
